@@ -194,3 +194,20 @@ BENIGN += [
              "    if isinstance(left, dict) and isinstance(right, dict):\n        return len(left) == len(right) and all(k in left and _eq(left[k], v) for k, v in right.items())\n\n"
              "    return left == right\n"),
 ]
+
+
+# ---- round 6
+BENIGN += [
+    # exact integer literals through Decimal, with its own failure class handled (the seeds r6E-5 / r6H-3 forget it)
+    dict(id="c13-int-literal-decimal-handled", props=["C13", "C03", "C04", "C12"], file=S + "parse.py",
+         old="            return IntegerLiteral(stream.current, value=int(float(value)))\n        except (ValueError, OverflowError) as err:",
+         new="            import decimal\n\n            return IntegerLiteral(stream.current, value=int(decimal.Decimal(value)))\n        except (ValueError, OverflowError, decimal.InvalidOperation) as err:"),
+    # vacuous all() on an emptiness-guarded list: equal results
+    dict(id="c10-unpack-isinstance-first", props=["C10", "C02"], file=S + "filter_expressions.py",
+         old="            if func.arg_types[idx] == ExpressionType.LOGICAL and isinstance(\n                arg, JSONPathNodeList\n            ):",
+         new="            if isinstance(arg, JSONPathNodeList) and func.arg_types[idx] == ExpressionType.LOGICAL:"),
+    # one-character slices instead of index + IndexError in peek()
+    dict(id="c19-peek-as-slice", props=["C19", "C03", "C04", "C13"], file=S + "lex.py",
+         old='        try:\n            return self.query[self.pos]\n        except IndexError:\n            return ""\n\n    def accept(',
+         new='        return self.query[self.pos : self.pos + 1]\n\n    def accept('),
+]
